@@ -35,6 +35,10 @@ func sliceArrayOperator(d *dataTreeNavigator, context Context, expressionNode *E
 		relativeFirstNumber := firstNumber
 		if relativeFirstNumber < 0 {
 			relativeFirstNumber = len(lhsNode.Content) + firstNumber
+			if relativeFirstNumber < 0 {
+				// .[-5:] of a two element array starts at the beginning (like jq), it must not index before it
+				relativeFirstNumber = 0
+			}
 		}
 
 		secondNumber, err := getSliceNumber(d, context, lhsNode, expressionNode.RHS)
